@@ -209,9 +209,19 @@ CHECKS = {
         "runtime oracle: repeated real save/reload cycles compared by deep snapshot and bytes",
         "4/C15",
     ),
+    "C04": (
+        "exploration",
+        "Units are checked from both sides and across formats: the 10 conversion constants against CODATA literals; the numbers "
+        "printed by every writer (value_au / unit of the format must be present in the file); conversion chains load(dump_B(load("
+        "dump_A(x)))) for all ordered pairs of the read/write formats on every quantity both carry; files of all 25 readable "
+        "formats from the independent spec writers (atomic-unit expectations by R.units) loaded and converted onwards; same-system "
+        "corpus pairs. Mismatches are classified by the unit factor they correspond to.",
+        "runtime oracle with unit-ratio classifier: independent constants + spec-writer expectations + cross-format chains",
+        "4/C04",
+    ),
 }
 
-NOT_YET = "check not built yet (work in progress; see DESIGN.md section 5b)"
+NOT_YET = "check not built"
 
 
 def build():
